@@ -4,7 +4,7 @@ the residual guard and are reported by the rules, never guessed."""
 from fractions import Fraction
 
 from . import terms as T
-from .nf import Ctx as NF, NotReal, decide_sign, p_sub, p_mul_raw
+from .nf import Ctx as NF, NotReal, decide_sign, p_sub, p_mul_raw, RF
 
 
 class Domain:
@@ -29,7 +29,8 @@ class Domain:
         return r
 
     def sign(self, term_or_rf):
-        rf = term_or_rf if (isinstance(term_or_rf, tuple) and len(term_or_rf) == 2 and isinstance(term_or_rf[0], dict)) else self.nf.of_term(term_or_rf)
+        self.nf.ranges = self.ranges
+        rf = term_or_rf if isinstance(term_or_rf, RF) else self.nf.of_term(term_or_rf)
         return decide_sign(self.nf, rf, self.range_for_atoms(rf))
 
     def literal(self, atom, pol):
@@ -99,8 +100,8 @@ def prune(paths, dom, variants=None):
 
 
 def rf_from_key(key):
-    """Inverse of Ctx.key: ('rf', numkey, denkey) -> (num poly, den poly)."""
-    return (dict(key[1]), dict(key[2]))
+    """Inverse of Ctx.key: ('rf', numkey, factors) -> RF."""
+    return RF(dict(key[1]), dict(key[2]))
 
 
 def quantile_hook(half=Fraction(1, 2)):
